@@ -813,6 +813,14 @@ class Interp(object):
             return c is object
         if isinstance(v, SymSlice):
             return c in (slice, object)
+        from .models import SymStr as _SymStr, FloatBits as _FloatBits, WBytes as _WBytes, SBytes as _SBytes
+        from . import models as _M2
+        if isinstance(v, (_SymStr, _M2.CatStr)):
+            return c in (str, object)
+        if isinstance(v, _FloatBits):
+            return c in (float, object)
+        if isinstance(v, (_WBytes, _SBytes)):
+            return c in (bytes, object)
         if isinstance(v, SymInt):
             import numpy as np
             return c in (int, object) or (v.__class__ is c)
@@ -849,6 +857,13 @@ class Interp(object):
             return ClassMethodVal(args[0])
         if not callable(f):
             raise ProgExc(TypeError, "not callable")
+        selfv = getattr(f, "__self__", None)
+        if isinstance(selfv, (bytes, bytearray)) and getattr(f, "__name__", "") == "join":
+            from . import models as _M
+            return _M.m_bytes_join(self, selfv, args[0])
+        if isinstance(selfv, str) and getattr(f, "__name__", "") == "join":
+            from . import models as _M
+            return _M.m_str_join(self, selfv, args[0])
         try:
             return f(*args, **kwargs)
         except (Unsupported, PathEnd, ProgExc, Drift, _Return):
